@@ -7,6 +7,7 @@ the parent link against the previous tip, stops at the first missing block, and 
 appended blocks; (m3) `ChainStore::get_block` and friends read from the freezer exactly for 0 < number < freezer.number() and ask it
 for that number.  RocksDB batches/iterators, the background thread, wipe-out and crash behaviour are outside (file level: C09).
 """
+import os
 import re
 from mir2smt.ob import *
 from mir2smt import terms as T
@@ -177,9 +178,9 @@ def m4_frozen_block_decoding(S):
             (E.rx(r"Freezer::number$"), lambda ex, c, a, d: IntV(1 << 40, "u64")),
             (E.rx(r"Freezer::retrieve$"), lambda ex, c, a, d: mk_result(True, mk_option(hit.t, OpaqueV("raw", "Vec<u8>"), "Option<Vec<u8>>"), OpaqueV("ferr", "Error"), d)),
             (E.rx(r"ChainStore>::get_block_header$"), lambda ex, c, a, d: mk_option(True, OpaqueV("header", "HeaderView"), d)),
-            (E.rx(r"ChainStore>::get_transaction_info$"), lambda ex, c, a, d: mk_option(True, AggV(tuple(ex.ctx.fresh_of_type(f"txinfo.{k}", "usize" if k == ti["index"] else "u64") if k in (ti["index"], ti["block_number"]) else OpaqueV(f"txinfo.{k}", "?") for k in range(len(ti))), "TransactionInfo"), d)),
+            (E.rx(r"ChainStore>::get_transaction_info$"), lambda ex, c, a, d: mk_option(True, AggV(tuple((ex.ctx.fresh_of_type(f"txinfo.{k}", "usize") if k == ti["index"] else IntV(7, "u64") if k == ti["block_number"] else OpaqueV(f"txinfo.{k}", "?")) for k in range(len(ti))), "TransactionInfo"), d)),
             (E.rx(r"HeaderView::number$"), lambda ex, c, a, d: IntV(7, "u64")),
-            (E.rx(r"Reader(::<'_>)?(<'_>)?::(from_compatible_slice|from_slice|new_unchecked|from_slice_should_be_ok)$|as Reader<'_>>::(from_compatible_slice|from_slice|new_unchecked)$"), decode),
+            (E.rx(r"Reader(::<'_>)?(<'_>)?::(from_compatible_slice|from_slice|new_unchecked|from_slice_should_be_ok)$|Reader<'_>>::(from_compatible_slice|from_slice|new_unchecked|from_slice_should_be_ok)$"), decode),
             (E.rx(r"as Deref>::deref$|::as_slice$|::as_ref$"), lambda ex, c, a, d: OpaqueV(nmv(ex, a[0]), d)),
             (E.rx(r"BlockReader(::<'_>)?(<'_>)?::transactions$"), nm1("txs")),
             (E.rx(r"TransactionVecReader(::<'_>)?(<'_>)?::get$"), tx_get),
@@ -187,7 +188,7 @@ def m4_frozen_block_decoding(S):
             (E.rx(r"::into_view$"), nm1("view")),
         ]
         ps = S.run(ctx, f[0], [ctx.ref_to(OpaqueV("store", "Self")), ctx.ref_to(OpaqueV("hash", "Byte32"))])
-        pre = [T.eq(T.var(f"txinfo.{ti['block_number']}"), 7)] if short != "get_block" else []
+        pre = []
         S.prove(ctx, ob, f"{short}_frozen_branch_does_not_panic", pre, T.not_(cond_of(panics(ps))))
         blockdec = [x for x in decodes if "BlockReader" in x[1] or x[2] == "raw"]
         S.prove(ctx, ob, f"{short}_frozen_bytes_are_decoded_as_a_block_in_compatible_mode", [], bool(blockdec and all(m == "from_compatible_slice" and "BlockReader" in c and src == "raw" for m, c, src, _ in blockdec)),
@@ -205,7 +206,9 @@ def m4_frozen_block_decoding(S):
             for p in hits:
                 tup = p.value.payload(1)[0]
                 ok.append(isinstance(tup, AggV) and len(tup.fields) == 2 and nmv(None, tup.fields[0]) == "view(entity(tx_of(txs(reader(raw)))))" and isinstance(tup.fields[1], AggV)
-                          and [getattr(x, "name", None) or str(getattr(x, "t", "")) for x in tup.fields[1].fields] == [f"txinfo.{k}" for k in range(len(ti))])
+                          and [getattr(x, "name", None) or (x.t[2] if isinstance(getattr(x, "t", None), tuple) and x.t[0] == "var" else str(getattr(x, "t", ""))) for x in tup.fields[1].fields] == [("7" if k == ti["block_number"] else f"txinfo.{k}") for k in range(len(ti))])
+                if os.environ.get("VERIF_DEBUG") and not ok[-1]:
+                    print("DEBUG tuple", tup)
             S.prove(ctx, ob, "get_transaction_with_info_returns_the_indexed_transaction_of_the_frozen_block_and_the_stored_info", [], bool(ok and all(ok)), extra={"note": str(ok)})
             S.prove(ctx, ob, "get_transaction_with_info_asks_for_the_recorded_index", pre, bool(gets) and T.and_(*[T.implies(T.and_(*pc), T.eq(i, idx.t)) for _, i, pc in gets]))
             S.prove(ctx, ob, "get_transaction_with_info_none_iff_miss_or_index_out_of_range", pre, T.iff(miss_cond, T.or_(T.not_(hit.t), T.not_(ctx.bool("index_in_range").t))))
